@@ -164,6 +164,16 @@ def shape(stmts):
     return out
 
 
+def multigoto_bodies():
+    alphabet = [("if", cond_true(), ("goto", "a"), None), V("v", 1), U("v"), ("block", [V("v", 1)]), ("block", [U("v")])]
+    for k in range(1, 6):
+        for combo in itertools.product(alphabet, repeat=k):
+            if sum(1 for st in combo if st[0] == "if") < 2:
+                continue
+            for tail in ([U("v")], []):
+                yield list(combo) + [("label", "a")] + tail
+
+
 def run_case(case):
     kind = case[0]
     out = []
@@ -196,19 +206,12 @@ def run_case(case):
         # several gotos to one label with declarations and uses between them, then the label and a use:
         # all sequences of <= 5 statements over {if..goto a, var v, use v, {var v}, {use v}} + `a:` + {use v, nothing}
         _, idx, n = case
-        alphabet = [("if", cond_true(), ("goto", "a"), None), V("v", 1), U("v"), ("block", [V("v", 1)]), ("block", [U("v")])]
-        i = 0
-        for k in range(1, 6):
-            for combo in itertools.product(alphabet, repeat=k):
-                if sum(1 for st in combo if st[0] == "if") < 2:
-                    continue
-                for tail in ([U("v")], []):
-                    i += 1
-                    if i % n != idx:
-                        continue
-                    res = check_body(list(combo) + [("label", "a")] + tail, 0)
-                    res.setdefault("cov", {})["multigoto_bodies"] = 1
-                    out.append(res)
+        for i, body in enumerate(multigoto_bodies()):
+            if i % n != idx:
+                continue
+            res = check_body(body, 0)
+            res.setdefault("cov", {})["multigoto_bodies"] = 1
+            out.append(res)
         return out
     if kind == "random":
         _, seed, i = case
